@@ -93,21 +93,22 @@ PROPS = {
         "functions": ["read_string", "TopicName::try_from / TopicFilter::try_from call sites in every body decoder", "decode_properties! string arms", "v5 payload format checks"],
         "bounds": {"quick": "25 text-bearing shapes, strings of 1-2 bytes, one invalid field at a time", "thorough": "+8 shapes, strings up to 4 bytes"},
         "outside": "two or more invalid fields at once; strings longer than 4 bytes; shared-subscription filters in packets",
-        "tiers": {"quick": {"modules": ["g_c12"], "generators": ["c12_quick"], "timeout_s": 600, "mem_gb": 8, "jobs": 14},
-                  "thorough": {"modules": ["g_c12"], "generators": ["c12_thorough"], "timeout_s": 1200, "mem_gb": 10, "jobs": 12}},
+        "tiers": {"quick": {"modules": ["g_c12", "p_lemma"], "generators": ["c12_quick"], "select": r"^v[35]_|^lemma_utf8_[1-4]$", "timeout_s": 600, "mem_gb": 8, "jobs": 14},
+                  "thorough": {"modules": ["g_c12", "p_lemma"], "generators": ["c12_thorough"], "timeout_s": 1200, "mem_gb": 10, "jobs": 12}},
     },
     "C20": {
         "level": "model_checking",
         "claim": "For each catalogue malformation the single-violation obligation is decided: whenever exactly one spec-side constraint of a shape is violated "
                  "(symbolic scalar: zero pid, QoS 3, return/reason code outside the table, reserved flag/option bits, bad boolean property; shape-level: connect flags, "
                  "empty subscription, unknown/duplicated/disallowed property, wrong property length, body on a body-less packet; class-level: non-UTF-8 string, wildcard in topic "
-                 "name, invalid filter, invalid response topic, invalid payload format) the strict decoder returns the documented variant carrying the offending value.",
+                 "name, invalid filter, invalid response topic, invalid payload format) the strict decoder returns the documented variant carrying the offending value; "
+                 "the real poll.rs rejects an over-long remaining length, a zero remaining length on a packet with a body and a refused control byte at every position and transport script (C05 steps, label C20).",
         "note": "strict decoder composition as in C04; agreement of the blocking/async front-ends with it is C06",
         "functions": ["as C04"],
         "bounds": {"all": "one shape per packet type for scalar malformations, every shape-level malformation of the C04 catalogue, invalid-class queries for 12 (quick) / all (thorough) text shapes"},
         "outside": "two simultaneous malformations (any error accepted); InvalidRemainingLength-vs-incomplete split is C06/C07's subject",
-        "tiers": {"quick": {"modules": ["g_c20"], "generators": ["c20_quick"], "timeout_s": 600, "mem_gb": 8, "jobs": 14},
-                  "thorough": {"modules": ["g_c20"], "generators": ["c20_thorough"], "timeout_s": 1200, "mem_gb": 10, "jobs": 12}},
+        "tiers": {"quick": {"modules": ["g_c20", "p_c05"], "generators": ["c20_quick"], "select": r"^v[35]_|^c05_steps_(overlong_varint|zero_rem|reject_hl2)$", "timeout_s": 600, "mem_gb": 8, "jobs": 14},
+                  "thorough": {"modules": ["g_c20", "p_c05"], "generators": ["c20_thorough"], "select": r"^v[35]_|^c05_steps_(overlong_varint|zero_rem|reject_hl2)$", "timeout_s": 1200, "mem_gb": 10, "jobs": 12}},
     },
     "C01": {
         "level": "model_checking",
@@ -208,7 +209,7 @@ PROPS = {
         "functions": ["v3::Packet::encode_async", "v5::Packet::encode_async", "tokio::io::AsyncWriteExt::write_all", "Packet::encode", "VarBytes::as_ref"],
         "bounds": {"all": "3 packets families x 3-4 scripts, encodings up to 10 bytes"},
         "outside": "other packet types through encode_async (the function body is type-independent: encode() then write_all); symbolic sink schedules",
-        "tiers": {"quick": {"modules": ["p_c09"], "timeout_s": 900, "mem_gb": 12}, "thorough": {"modules": ["p_c09"], "timeout_s": 1800, "mem_gb": 16}},
+        "tiers": {"quick": {"modules": ["p_c09"], "timeout_s": 400, "mem_gb": 12}, "thorough": {"modules": ["p_c09"], "timeout_s": 1800, "mem_gb": 16}},
     },
     "C14": {
         "level": "model_checking",
@@ -225,15 +226,19 @@ PROPS = {
     },
     "C11": {
         "level": "model_checking",
-        "claim": "For every enumerated shape (canonical and non-canonical spellings: PUBACK-family medium/long forms with reason 0x00 or without properties, DISCONNECT code/long, AUTH long, "
-                 "CONNECT flag variants): whenever the strict decoder accepts, the returned value's streaming encoder succeeds, writes exactly encode_len() bytes (so Packet::encode cannot trip its "
-                 "debug assertion or emit a wrong remaining length), at most as many as were consumed, and for canonical shapes exactly the frame body - which C04 shows decodes to the same value.",
-        "note": "body level (reading the decoder's value through the Packet enum into the streaming encoder); packet-level header glue is C09/C10; the blocking/async front-ends return the same "
-                "value as the strict one by C06",
+        "claim": "v3 (direct): for every enumerated v3 shape, whenever the strict decoder accepts, the streaming encoder of the returned value succeeds, writes exactly encode_len() bytes (so "
+                 "Packet::encode cannot trip its debug assertion or emit a wrong remaining length), at most as many as were consumed, and for canonical shapes exactly the frame body. "
+                 "v5 (split at the value): per enumerated shape (a) the decode query decides that every field of the accepted value equals the specification's value of the frame cells "
+                 "(incl. the non-canonical spellings: PUBACK-family medium/long forms with reason 0x00 or without properties, DISCONNECT code/long, AUTH long), and (b) the encode query of the "
+                 "same shape decides that a value with those fields - all of them, symbolic - is written without error as exactly those cells with encode_len() = bytes written; "
+                 "(a) and (b) share the cells, so re-encoding an accepted canonical frame yields the frame itself, which (a) decodes to the same value.",
+        "note": "the direct v5 query (reading a property-bearing value back out of the decoder's result into the encoder) does not decide: 1.1-1.4 M steps and solver out-of-memory for every v5 "
+                "shape, measured; for non-canonical v5 spellings (b) is that of the canonical sibling shape, the pairing is by construction of the catalogue and not itself a solver query; "
+                "the blocking/async front-ends return the same value as the strict one by C06",
         "functions": ["every body decode_async (twin)", "every Encodable::{encode, encode_len}"],
-        "bounds": {"quick": "every second canonical shape + all non-canonical shapes of the C04 catalogue", "thorough": "all"},
-        "outside": "non-minimal property-length / remaining-length varints (lenient framing of the blocking decoder); as C04",
-        "tiers": {"quick": {"modules": ["g_c11"], "generators": ["c11_quick"], "timeout_s": 300, "mem_gb": 8, "jobs": 8},
+        "bounds": {"quick": "13 v3 shapes direct; v5: every shape of the ack/suback/unsuback/disconnect/auth/subscribe/unsubscribe types and one shape of each other type", "thorough": "all accepted shapes of the C04 catalogue"},
+        "outside": "non-minimal property-length / remaining-length varints (lenient framing of the blocking decoder); v5 values outside the catalogue's shapes; as C04",
+        "tiers": {"quick": {"modules": ["g_c11"], "generators": ["c11_quick"], "timeout_s": 400, "mem_gb": 8, "jobs": 12},
                   "thorough": {"modules": ["g_c11"], "generators": ["c11_thorough"], "timeout_s": 1200, "mem_gb": 10, "jobs": 12}},
     },
     "C08": {
